@@ -17,7 +17,21 @@ use util::{Rng, Stats, Tier, guarded};
 #[global_allocator]
 static ALLOC: monitor::guard::GuardAlloc = monitor::guard::GuardAlloc;
 
-pub const VERIF_DIR: &str = "/verif";
+/// Root of the verification tree this binary belongs to
+/// (`<root>/harness/target/release/fv`), so that a snapshot run writes its
+/// evidence/replays into the snapshot, not into /verif
+pub fn verif_dir() -> String {
+    if let Ok(d) = std::env::var("FV_ROOT") {
+        return d;
+    }
+    std::env::current_exe()
+        .ok()
+        .and_then(|p| {
+            p.ancestors().nth(4).map(|a| a.to_string_lossy().to_string())
+        })
+        .filter(|d| std::path::Path::new(&format!("{d}/properties.jsonl")).exists())
+        .unwrap_or_else(|| "/verif".to_string())
+}
 
 #[derive(Copy, Clone, PartialEq, Eq, Debug)]
 pub enum Mode {
@@ -263,7 +277,7 @@ fn run_children(
 ) -> Stats {
     let workers = prop.workers() as u64;
     let exe = std::env::current_exe().unwrap();
-    let dir = format!("{VERIF_DIR}/harness/target/run-{}-{}", prop.id(), std::process::id());
+    let dir = format!("{}/harness/target/run-{}-{}", verif_dir(), prop.id(), std::process::id());
     std::fs::create_dir_all(&dir).unwrap();
     let t0 = Instant::now();
     let mut total = Stats::default();
@@ -391,7 +405,7 @@ struct Known {
 }
 
 fn load_known(prop: &str) -> Vec<Known> {
-    let p = format!("{VERIF_DIR}/known_findings.json");
+    let p = format!("{}/known_findings.json", verif_dir());
     let Ok(b) = std::fs::read(&p) else {
         return vec![];
     };
@@ -478,11 +492,12 @@ fn main() {
         }
     }
 
-    let _ = std::fs::create_dir_all(format!("{VERIF_DIR}/replays"));
+    let _ = std::fs::create_dir_all(format!("{}/replays", verif_dir()));
     let mut lines = vec![];
     for (i, v) in new_violations.iter().enumerate() {
         let path = format!(
-            "{VERIF_DIR}/replays/{}-{}-{}-{}.json",
+            "{}/replays/{}-{}-{}-{}.json",
+            verif_dir(),
             prop.id(),
             a.seed as i64,
             v.case,
@@ -546,9 +561,9 @@ fn main() {
         "wall_s": wall,
         "violations": new_violations.len(),
     });
-    let _ = std::fs::create_dir_all(format!("{VERIF_DIR}/evidence"));
+    let _ = std::fs::create_dir_all(format!("{}/evidence", verif_dir()));
     std::fs::write(
-        format!("{VERIF_DIR}/evidence/{}.json", prop.id()),
+        format!("{}/evidence/{}.json", verif_dir(), prop.id()),
         serde_json::to_vec_pretty(&ev).unwrap(),
     )
     .unwrap();
